@@ -132,4 +132,4 @@ def eval_nopanic(triples, tier, rng):
         if t['worst_ratio_per_decade'] > 40:
             bad = [k for k, r in t['probes'].items() if max(r['ratio_per_decade']) > 40]
             fails.append({'what': 'parse time grows super-linearly on %s: %s' % (bad, {k: t['probes'][k] for k in bad}), 'case': dump(['rtime', str(t['sizes'][-1]), bad[0].split('/')[1]]), 'input': bad, 'kind': 'timing'})
-    return {'failures': fails[:40], 'nontrivial': nontrivial, 'distribution': dist, 'certs': certs, 'excused': excused}
+    return {'failures': fails, 'nontrivial': nontrivial, 'distribution': dist, 'certs': certs, 'excused': excused}
